@@ -11,7 +11,7 @@ IMPORTS = "From PKO Require Import Template.\nFrom PKOCorr Require Import C18Cor
 
 CLAUSES = ["render", "required", "optional", "unparsable", "nsbound", "delete", "tracks", "quiescent", "enqueue"]
 IDENT = {
-    "render": "C18 target written with something else than the template rendered with the current source values, or not written although it should be",
+    "render": "C18 target written with something else than the template rendered with the source values read in that pass and the current environment of its namespace, or not written although it should be",
     "required": "C18 missing required source: target written, or not reported through the Invalid condition, or not requeued",
     "optional": "C18 missing optional source: not retried, or target not written from the remaining sources",
     "unparsable": "C18 unparsable template: target written or Invalid condition missing",
@@ -79,11 +79,24 @@ def c_tmpl(tns, spec, st):
         cL([cP(n(a), n(b)) for a, b in st["conds"]]), cO(None if st.get("ctrlof") is None else c_key(st["ctrlof"])))
 
 
+def hval(hs, hcs, ns):
+    """The HyperShift part of the environment GetEnvironment must return for a namespace (Template.hval)."""
+    if not hs:
+        return 0
+    return 10 + ns if ns != 0 and ns in hcs else 1
+
+
 def c_world(tns, spec, snap, env):
-    return "{| w_store := %s; w_tmpl := %s; w_watch := %s; w_env := %s; w_pending := %s |}" % (
+    """env = (version, HyperShift section present?) as last handed to the sink; the HostedClusters are the ones observed on
+    the API server. w_env is computed here, freshly, from these and the template's namespace."""
+    ver, hs = env
+    hcs = snap.get("hcs") or []
+    return ("{| w_store := %s; w_tmpl := %s; w_watch := %s; w_env := %s; "
+            "w_sink := {| sk_ver := %s; sk_hs := %s; sk_hcs := %s; sk_ns := %s |}; w_pending := %s |}") % (
         cL([cP(c_key(o["key"]), c_obj(o)) for o in snap["store"]]),
         cO(None if snap["tmpl"] is None else c_tmpl(tns, spec, snap["tmpl"])),
-        cL([cP(n(a), n(b)) for a, b in snap["watch"]]), n(env), cB(snap.get("pending", False)))
+        cL([cP(n(a), n(b)) for a, b in snap["watch"]]), n(ver + 1000 * hval(hs, hcs, tns)),
+        n(ver), cB(hs), cL([n(x) for x in hcs]), n(tns), cB(snap.get("pending", False)))
 
 
 RES = {"ok": "WOk", "AlreadyExists": "WAlreadyExists", "BadRequest": "WBadRequest"}
@@ -95,8 +108,14 @@ def c_ev(e):
         return "(EWatch %s)" % n(e["kind"])
     if k == "free":
         return "EFree"
-    if k in ("fin-add", "fin-rm", "status", "patch-label") and e.get("res") != "ok":
-        return "EOther"
+    if k in ("fin-add", "fin-rm") and e.get("res") != "ok":
+        return "(EFail 6)"
+    if k == "status" and e.get("res") != "ok":
+        return "(EFail 9)"
+    if k == "patch-label" and e.get("res") != "ok":
+        return "(EPatchFail %s)" % c_key(e["key"])
+    if k == "cache-hit":
+        return "(ECacheHit %s %s)" % (c_key(e["key"]), c_data(e.get("data") or []))
     if k == "fin-add":
         return "EFinAdd"
     if k == "fin-rm":
@@ -104,7 +123,7 @@ def c_ev(e):
     if k == "status":
         return "EStatus"
     if k == "patch-label":
-        return "(EPatchLabel %s)" % c_key(e["key"])
+        return "(EPatchLabel %s %s)" % (c_key(e["key"]), c_data(e.get("data") or []))
     if k in ("create", "update"):
         if e.get("note"):
             return "EOther"
@@ -131,10 +150,45 @@ def c_step(st):
         return "SPass"
     if op == "drain":
         return "SDrain"
+    if op == "hyper":
+        return "(SHyper %s)" % cB(st["b"])
+    if op == "hc":
+        return "(SHc %s %s)" % (n(st["ns"]), cB(st["b"]))
+    if op == "aux":
+        return "(SAux %s)" % n(st["ns"])
+    if op == "passx":
+        return "(SPassX %s)" % cL([cP(n(a["n"]), c_act(a)) for a in st.get("adv") or []])
     raise Unrep(op)
 
 
-def c_sobs(so):
+def c_act(a):
+    if a["op"] == "del":
+        return "(ADel %s)" % c_key(a["key"])
+    if a["op"] == "put":
+        return "(APut %s %s)" % (c_key(a["key"]), c_data(a["data"]))
+    return "(AFault %s)" % ("FNotFound" if a["fault"] == "NotFound" else "FOther")
+
+
+def reads_of(evs, nsources):
+    """Per attempted source, in order: the data the pass read AND labelled (cache hit, or answer of a successful label
+    patch), None if it has neither. A source is attempted when the pass asks the cache to watch its kind."""
+    segs = []
+    for e in evs:
+        if e["e"] == "watch":
+            segs.append(None)
+        elif segs and segs[-1] is None and (e["e"] == "cache-hit" or (e["e"] == "patch-label" and e.get("res") == "ok")):
+            segs[-1] = e.get("data") or []
+    return segs[:nsources]
+
+
+def c_sobs(so, step=None, nsources=0):
+    if so["kind"] == "aux":
+        return "(OAux %s)" % n(so["aux"])
+    if so["kind"] == "pass" and step is not None and step["op"] == "passx":
+        evs = so.get("evs") or []
+        return "(OPassX {| p_evs := %s; p_requeue := %s; p_err := %s |} %s)" % (
+            cL([c_ev(e) for e in evs]), n(so["requeue"]), n(so["err"]),
+            cL([cO(None if d is None else c_data(d)) for d in reads_of(evs, nsources)]))
     if so["kind"] == "pass":
         return "(OPass {| p_evs := %s; p_requeue := %s; p_err := %s |})" % (cL([c_ev(e) for e in so.get("evs") or []]), n(so["requeue"]), n(so["err"]))
     if so["kind"] == "enq":
@@ -147,22 +201,25 @@ DEFAULT_CODE = {"form": 0, "kind": 1, "ns": 0, "name": 100, "pick": [], "orefs":
 
 def init_snap(sc):
     t = sc["tmpl"]
-    return {"store": sc["store"], "watch": sc["watch"],
+    return {"store": sc["store"], "watch": sc["watch"], "hcs": sorted(sc.get("hcs") or []),
             "tmpl": None if t is None else {k: t[k] for k in ("gen", "fin", "del", "invalid", "conds", "ctrlof")}}
 
 
 def c_case(sc, obs):
     tns, t = sc["tns"], sc["tmpl"]
     spec = (t["sources"], t["code"]) if t else ([], DEFAULT_CODE)
-    env = sc["env"]
+    env = (sc["env"], sc.get("hs", False))
     spec0, env0 = spec, env
     outs = []
     for st, so in zip(sc["steps"], obs["steps"]):
+        o = c_sobs(so, st, len(spec[0]))
         if st["op"] == "tedit":
             spec = (st["sources"], st["code"])
         if st["op"] == "env":
-            env = st["env"]
-        outs.append(cP(c_sobs(so), c_world(tns, spec, so["snap"], env)))
+            env = (st["env"], env[1])
+        if st["op"] == "hyper":
+            env = (env[0], st["b"])
+        outs.append(cP(o, c_world(tns, spec, so["snap"], env)))
     ref = obs["ref"]
     if ref["status"].startswith("harness"):
         raise Unrep(ref["status"])
@@ -202,9 +259,25 @@ def put(key, data, label=False, lother=0):
     return {"op": "put", "key": list(key), "data": [list(x) for x in data], "label": label, "lother": 0 if label else lother}
 
 
-def scen(tns, tmpl, store, steps, watch=(), env=1, iv=(30, 60)):
+def scen(tns, tmpl, store, steps, watch=(), env=1, iv=(30, 60), hs=False, hcs=()):
     return {"iv_res": iv[0], "iv_opt": iv[1], "tns": tns, "tmpl": tmpl, "store": store, "watch": [list(w) for w in watch],
-            "env": env, "steps": steps}
+            "env": env, "hs": hs, "hcs": list(hcs), "steps": steps}
+
+
+def passx(*adv):
+    return {"op": "passx", "adv": list(adv)}
+
+
+def a_del(i, key):
+    return {"n": i, "op": "del", "key": list(key)}
+
+
+def a_put(i, key, data):
+    return {"n": i, "op": "put", "key": list(key), "data": [list(x) for x in data]}
+
+
+def a_fault(i, f):
+    return {"n": i, "op": "fault", "fault": f}
 
 
 def corpus():
@@ -261,6 +334,33 @@ def corpus():
         scen(1, T(1, [S(1, 0, 1)], code()), [cm1, O((1, 1, 100), [(1, 1)], lother=2)], [P, D]),
         # idle worker
         scen(1, T(1, [S(1, 0, 1)], code()), [cm1], [D, P, D]),
+        # third parties and faults INSIDE a pass (requests: 0 Get template, 1 finalizer patch, 2 uncached Get, 3 label patch,
+        # 4 create/update, 5 status): a required source deleted between the uncached Get and the label patch, with a template
+        # that tolerates the missing key - nothing may be written
+        scen(1, T(1, [S(1, 0, 1)], code(form=2, pick=(1,))), [cm1], [passx(a_del(3, (1, 1, 1))), P]),
+        scen(1, T(1, [S(1, 0, 1)], code(form=2, pick=(1,))), [cm1], [passx(a_fault(3, "NotFound")), P]),
+        scen(1, T(1, [S(1, 0, 1)], code(form=0), fin=True), [cm1], [passx(a_del(2, (1, 1, 1)))]),
+        scen(1, T(1, [S(1, 0, 1), S(2, 0, 2, items=((1, 2),))], code(form=2, pick=(1, 2))), [cm1, O((2, 1, 2), [(1, 8)])],
+             [passx(a_del(5, (2, 1, 2))), passx()]),
+        # ... modified between Get and patch: the pass goes on with what the patch returned
+        scen(1, T(1, [S(1, 0, 1)], code()), [cm1], [passx(a_put(3, (1, 1, 1), [(1, 9)])), P]),
+        # ... deleted after it was read: the write is legitimate
+        scen(1, T(1, [S(1, 0, 1)], code()), [cm1], [passx(a_del(4, (1, 1, 1))), P]),
+        # ... optional source: NotFound from the uncached Get skips it
+        scen(1, T(1, [S(1, 0, 1, opt=True)], code(form=2, pick=(1,))), [cm1], [passx(a_fault(2, "NotFound")), P]),
+    ] + [
+        scen(1, T(1, [S(1, 0, 1)], code(form=2, pick=(1,))), [cm1], [passx(a_fault(i, f)), P])
+        for i in range(6) for f in ("NotFound", "Conflict", "Internal")
+    ] + [
+        scen(1, T(1, [S(1, 0, 1)], code(), fin=True, **{"del": True}), [cm1], [passx(a_fault(1, "Internal")), P], watch=[(1, 1)]),
+        # HyperShift: the environment of a render is the sink's environment amended with the HostedCluster of the template's
+        # namespace NOW; other templates of the same controller (aux, in other namespaces) and earlier lookups leave no trace
+        scen(1, T(1, [S(1, 0, 1)], code(form=6)), [cm1], [{"op": "aux", "ns": 2}, P, {"op": "aux", "ns": 1}, {"op": "aux", "ns": 3}],
+             hs=True, hcs=(2,)),
+        scen(1, T(1, [S(1, 0, 1)], code(form=6)), [cm1],
+             [P, {"op": "hc", "ns": 1, "b": False}, P, {"op": "aux", "ns": 2}, P, {"op": "hc", "ns": 1, "b": True}, P], hs=True, hcs=(1, 2)),
+        scen(2, T(2, [], code(form=6)), [], [P, {"op": "hyper", "b": True}, P, {"op": "aux", "ns": 3}, P, {"op": "hyper", "b": False}, P], hcs=(3,)),
+        scen(0, T(0, [], code(form=6, kind=3)), [], [P, {"op": "hc", "ns": 1, "b": True}, P], hs=True),
         # empty destination in a source item (was a panic before a818a7e): SourceError
         scen(1, T(1, [S(1, 0, 1, items=((1, 0),))], code()), [cm1], [P, P]),
         scen(1, T(1, [S(1, 0, 1, items=((1, 1), (1, 0)))], code()), [cm1], [P]),
@@ -313,7 +413,7 @@ def table(tier):
 def gen(seed, tier):
     r = vlib.rng(seed, "C18")
     out = corpus() + table(tier)
-    total = len(out) + (200 if tier == "quick" else 3000) - len(corpus())
+    total = len(out) + (180 if tier == "quick" else 3000)
 
     def data():
         return [[k, r.randint(1, 9)] for k in (1, 2, 3) if r.random() < 0.92]
@@ -328,7 +428,7 @@ def gen(seed, tier):
         return {"kind": kind, "ns": ns, "name": r.randint(1, 3), "opt": r.random() < 0.4, "items": items}
 
     def mk_code(tns):
-        form = r.choice([0] * 9 + [1] * 3 + [2] * 3 + [3] * 3 + [4, 5])
+        form = r.choice([0] * 9 + [1] * 3 + [2] * 4 + [3] * 2 + [6] * 3 + [4, 5])
         kind = r.choice([1] * 12 + [2] * 3 + [3] * 2 + [4])
         if tns:
             ns = r.choice([0] * 8 + [1, 1, 2])
@@ -390,6 +490,27 @@ def gen(seed, tier):
             for owner in (1, 2):
                 if r.random() < 0.15:
                     watch.append([kind, owner])
+        hyper = r.random() < 0.3
+        hs0 = hyper and r.random() < 0.8
+        hcs0 = [x for x in (1, 2, 3) if r.random() < 0.5] if hyper else []
+        if hyper and tm is not None and r.random() < 0.7:
+            c = dict(c, form=6)
+            tm["code"] = c
+
+        def mk_adv():
+            acts = []
+            for _ in range(r.choice([1, 1, 2, 3])):
+                i = r.randint(0, 6)
+                u2 = r.random()
+                cand = [k for k in keys if valid_key(k)] or [[1, 1, 1]]
+                if u2 < 0.35:
+                    acts.append(a_del(i, r.choice(cand)))
+                elif u2 < 0.55:
+                    acts.append(a_put(i, r.choice(cand), data()))
+                else:
+                    acts.append(a_fault(i, r.choice(["NotFound", "Conflict", "Internal"])))
+            return passx(*acts)
+
         steps = []
         driven = r.random() < 0.4      # after the first pass the template only runs when the queue holds a request
         if driven:
@@ -406,8 +527,17 @@ def gen(seed, tier):
                 else:
                     steps.append(dict(D))
                 continue
+            if hyper and r.random() < 0.3:
+                v = r.random()
+                if v < 0.4 and tns:
+                    steps.append({"op": "aux", "ns": r.choice([x for x in (1, 2, 3) if x != tns])})
+                elif v < 0.75:
+                    steps.append({"op": "hc", "ns": r.randint(1, 3), "b": r.random() < 0.5})
+                else:
+                    steps.append({"op": "hyper", "b": r.random() < 0.6})
+                continue
             if u < 0.42:
-                steps.append(dict(P))
+                steps.append(mk_adv() if r.random() < 0.25 and tk not in keys else dict(P))
             elif u < 0.66:
                 cand = [k for k in keys if valid_key(k)] or [[1, 1, 1]]
                 k = r.choice(cand) if r.random() < 0.85 else [r.choice([1, 2]), r.choice([1, 2]), r.randint(1, 3)]
@@ -437,7 +567,7 @@ def gen(seed, tier):
         elif r.random() < 0.6:
             steps[-1] = dict(P)
         out.append(scen(tns, tm, store, steps, watch=watch, env=r.randint(1, 9),
-                        iv=r.choice([(30, 60)] * 6 + [(0, 60), (30, 0), (0, 0)])))
+                        iv=r.choice([(30, 60)] * 6 + [(0, 60), (30, 0), (0, 0)]), hs=hs0, hcs=hcs0))
     return out
 
 
@@ -462,6 +592,8 @@ def classify(sc, obs):
                         so["requeue"], so["err"], None if t is None else t["invalid"]))
         elif so["kind"] == "enq":
             cls.append((st["op"], so["enq"]))
+        elif so["kind"] == "aux":
+            cls.append((st["op"], so["aux"]))
         else:
             cls.append((st["op"],))
     return (sc["tns"] == 0, tuple(cls))
@@ -475,8 +607,15 @@ def slim(sc, obs):
 
 def check(run, tier, seed, replay=None):
     run.assumptions += [
-        "pass-level atomicity: third-party steps and controller passes interleave at pass granularity; the dynamic cache is "
-        "in sync with the API server at the start of every pass (cache consistency is C12's subject)",
+        "interleavings: third-party steps and controller passes interleave at pass granularity, and - in passes with a schedule "
+        "(passx) - third-party deletions / modifications of sources and API faults are placed before any API request of the pass; "
+        "the dynamic cache follows the API server at once (cache consistency is C12's subject); events of mid-pass third-party "
+        "actions are not followed through the work queue",
+        "for passes with a schedule only the reads clause is judged (what is written is the render of what was read and labelled "
+        "in that pass, every unread source is optional); all nine clauses are judged on passes without schedule",
+        "environment: version and HyperShift section are what the harness last handed to the real Sink, HostedClusters are the ones "
+        "on the recording API server; the expected environment of a render is computed from these by the driver (Template.view), "
+        "other templates of the same controller are represented by source-less templates printing their environment (aux passes)",
         "event delivery from the API server to the informer handlers is played by the harness (labelled objects only, as the "
         "cache's label selector prescribes); from the handlers on, controller-runtime's event handler, the controller's "
         "predicate and EnqueueWatchingObjects are the real code; that an enqueued request leads to a pass is controller-runtime's",
@@ -549,7 +688,10 @@ def check(run, tier, seed, replay=None):
         "owner references, arbitrary initial template state (finalizer, Invalid condition, conditions, controllerOf, deleting), "
         "pre-existing targets and cache owners, 1-8 steps of source create/edit/delete, target status writes, template edit, "
         "template delete, environment change and controller passes; objects carry the cache label with the exact value, with "
-        "another value (\"true\", \"False\", \"\") or not at all; 40% of the random histories are queue-driven (one pass, then source / "
+        "another value (\"true\", \"False\", \"\") or not at all; 25% of the passes of ordinary histories run with a schedule of third-party "
+        "deletions / modifications of sources and API faults (NotFound, Conflict, InternalError) placed before their n-th request; 30% of "
+        "the histories are on a HyperShift management cluster (HostedClusters for some namespaces, created and deleted on the way, passes "
+        "of other templates of the same controller in other namespaces, templates printing the environment); 40% of the random histories are queue-driven (one pass, then source / "
         "target edits and deletions with the worker running a pass only when the recording queue holds a request); one evaluation = one history judged in Coq (agreement of "
         "every step + 9 monitor clauses); non-trivial = at least two steps; distinct = (scope, per step: "
         "write/cache events with results, requeue, error class, Invalid | enqueued)")
